@@ -3174,7 +3174,13 @@ func (s *Server) closeIdleConns() {
 	for c, ict := range s.idleConns {
 		t := ict.Load()
 		if t != 0 && now-t >= 0 {
-			_ = c.Close()
+			if pc, ok := c.(interface{ closeConn() error }); ok {
+				// Per-IP wrappers are released by the goroutine serving the
+				// connection; only close the underlying connection here.
+				_ = pc.closeConn()
+			} else {
+				_ = c.Close()
+			}
 			// Don't recycle ict: the connection's own goroutine still holds it
 			// and stores into it, so only that goroutine may return it.
 			delete(s.idleConns, c)
